@@ -2,6 +2,7 @@ import Driver.Util
 import Driver.Ops.Dec
 import EncodingRs.Model.StrSink
 import EncodingRs.Model.Repl
+import EncodingRs.Model.OneShot
 import EncodingRs.Spec.Utf8
 /-!
 Driver operation `zerotail` (C05 / C15): the whole `&mut str` destination before and after a call of
@@ -15,8 +16,9 @@ a safe `&mut str` sink, recomputed with `Model/StrSink.lean`.
   `zeroTrail true`).  `<written>` must be the model's.  By `Thm.C05Str.zeroTrail_window_irrelevant` the
   comparison is also meaningful for the `simd-accel` build, whose kernels may leave garbage inside the
   stride window only.
-* `decode_to_str:<ENC>`, `decode_to_str_without_replacement:<ENC>`: one call with `last = true` of a
-  fresh decoder without BOM handling.  The written prefix is the first `<written>` bytes of the UTF-8
+* `decode_to_str:<ENC>[:sniff]`, `decode_to_str_without_replacement:<ENC>[:sniff]`: one call with
+  `last = true` of a fresh decoder without BOM handling / with BOM sniffing (`:sniff`: the decoder and
+  `self.encoding` are those `Model.OneShot.forBom` selects, the BOM is skipped).  The written prefix is the first `<written>` bytes of the UTF-8
   form of the model's complete decoding (with U+FFFD / up to the first error) — it must be that long
   and end at a character boundary (where exactly a call stops is the business of the `dec`
   correspondence); the destination is then `decodeToStrFinish (ENC == UTF_8)` of prefix ++ old rest.
@@ -52,22 +54,31 @@ def zerotail (op : String) (args : List String) : Option (Option String) :=
     | "convert_latin1_to_str" => do
       let src ← parseHex srcS; pure (showMemRes writtenS (convertLatin1ToStrMem src before))
     | _ =>
-      match f.splitOn ":" with
-      | [m, enc] => do
+      let parts := f.splitOn ":"
+      match parts with
+      | m :: enc :: opt => do
         let repl ← match m with
           | "decode_to_str" => some true
           | "decode_to_str_without_replacement" => some false
           | _ => none
+        let sniff ← match opt with
+          | [] => some false
+          | ["sniff"] => some true
+          | _ => none
         let (_, e) ← findEnc enc
-        let src ← parseHex srcS
+        let src0 ← parseHex srcS
         let written ← writtenS.toNat?
-        let all ← completeBytes (famOfVariant e.variant) repl src
+        -- one complete call (`last = true`) of a fresh decoder: BOM sniffing decides like `Encoding::for_bom`
+        let (variant, src) := match (if sniff then OneShot.forBom src0 else none) with
+          | some (u, n) => (OneShot.variantOfUsed e.variant u, src0.drop n)
+          | none => (e.variant, src0)
+        let all ← completeBytes (famOfVariant variant) repl src
         let w := all.take written
         if w.length ≠ written then pure s!"written: {written} exceeds the complete output ({all.length} bytes)"
         else if !(Spec.validUtf8 w) then pure s!"written: {written} is not a character boundary of the output {toHex all}"
         else if before.length < written then pure s!"written: {written} exceeds the destination"
         else
-          let isUtf8 := decide (e.variant = Gen.Variant.utf8)
+          let isUtf8 := decide (variant = Gen.Variant.utf8)
           pure (toHex (decodeToStrFinish isUtf8 (w ++ before.drop written) written))
       | _ => none
   | "zerotail", _ => some none
